@@ -89,3 +89,55 @@ Theorem C33_scale_roundtrip_phys_norm :
     Forall2 ceq (scale_to_norm cs rev sref (scale_to_phys cs rev sref d sc ad nlv) sc ad nlv) d.
 Proof. exact scale_roundtrip_phys_norm. Qed.
 Print Assumptions C33_scale_roundtrip_phys_norm.
+
+(* _set_scaling of a nonlinear root vector: on the range of every variable (at each of its entries j) the scaler
+   holds the variable's scale1 and the adder its scale0 (broadcast when scalar); a variable without factors keeps
+   1 and 0 — for every layout with distinct names, every factor table that fits the variable sizes. *)
+Theorem C33_set_scaling_nonlinear :
+  forall (isinput do_adder : bool) (lay : layout) (factors : list (nat * factor_t)) (nm s e j : nat),
+    fits false isinput factors lay -> NoDup (names lay) ->
+    range_of lay nm = Some (s, e) -> (j < e - s)%nat ->
+    nth (s + j) (fst (set_scaling_nl isinput do_adder lay factors)) 0
+    = match find (fun p => Nat.eqb (fst p) nm) factors with
+      | Some f => nth j (bcast (snd (scale01 false isinput (snd f))) (e - s)) 0
+      | None => 1
+      end
+    /\ (do_adder = true -> exists a', snd (set_scaling_nl isinput do_adder lay factors) = Some a' /\
+         nth (s + j) a' 0
+         = match find (fun p => Nat.eqb (fst p) nm) factors with
+           | Some f => match fst (scale01 false isinput (snd f)) with
+                       | Some s0 => nth j (bcast s0 (e - s)) 0
+                       | None => 0
+                       end
+           | None => 0
+           end).
+Proof. exact set_scaling_nl_spec. Qed.
+Print Assumptions C33_set_scaling_nonlinear.
+
+(* ... of a linear root vector (no adder; the array starts as ones when a solver ref exists, otherwise it is the
+   nonlinear scaler array itself). *)
+Theorem C33_set_scaling_linear :
+  forall (isinput solver_ref : bool) (lay : layout) (factors : list (nat * factor_t)) (nl_scaler : list Q)
+         (nm s e j : nat),
+    fits true isinput factors lay -> NoDup (names lay) -> length nl_scaler = total lay ->
+    range_of lay nm = Some (s, e) -> (j < e - s)%nat ->
+    nth (s + j) (fst (set_scaling_ln isinput solver_ref lay factors nl_scaler)) 0
+    = match find (fun p => Nat.eqb (fst p) nm) factors with
+      | Some f => nth j (bcast (snd (scale01 true isinput (snd f))) (e - s)) 0
+      | None => if solver_ref then 1 else nth (s + j) nl_scaler 0
+      end.
+Proof. exact set_scaling_ln_spec. Qed.
+Print Assumptions C33_set_scaling_linear.
+
+(* scale0 / scale1 in terms of the factor tuple (a0, a1, factor, offset): nonlinear ((a0 + offset) * factor,
+   a1 * factor) or (a0, a1); linear factor / a1, 1 / a1 (inputs) or a1 (outputs / residuals). *)
+Theorem C33_scale01_cases :
+  forall (a0 a1 : list Q) (factor offset : Q) (isinput : bool),
+    scale01 false isinput (a0, a1, Some (factor, offset))
+      = (Some (map (fun x => (x + offset) * factor) a0), map (fun x => x * factor) a1)
+    /\ scale01 false isinput (a0, a1, None) = (Some a0, a1)
+    /\ scale01 true isinput (a0, a1, Some (factor, offset)) = (None, map (fun x => factor / x) a1)
+    /\ scale01 true true (a0, a1, None) = (None, map (fun x => 1 / x) a1)
+    /\ scale01 true false (a0, a1, None) = (Some a0, a1).
+Proof. exact scale01_cases. Qed.
+Print Assumptions C33_scale01_cases.
